@@ -333,7 +333,17 @@ class LocalStorageBackend(StorageBackend):
 
     def exists(self, path: str) -> bool:
         full_path = self._resolve_path(path)
-        return os.path.exists(full_path)
+        # Only "there is no such file" means False. os.path.exists() also turns
+        # an I/O or permission error on stat() into False - and callers act on
+        # that answer: a version hint that "does not exist" sends readers to
+        # recovery-by-scanning, which picks the highest metadata version on
+        # disk, committed or not. An unreadable file must fail the operation,
+        # like it does on the S3 backend.
+        try:
+            os.stat(full_path)
+        except (FileNotFoundError, NotADirectoryError):
+            return False
+        return True
 
     def list_files(self, prefix: str) -> List[str]:
         """List files under `prefix`, as paths relative to the table root.
